@@ -95,6 +95,30 @@ namespace {
                 (kr.isInteger() ? std::to_string(kr.getIntValue()) : rot) + ",";
         }
     }
+    // id^hash of every dictionary leaf of the raw tree: the leaf's own dictionary as it unparses (references stay
+    // references, /Parent left out) - what an in-place edit of a direct value of the page changes, and nothing else does
+    void walkvals(QPDFObjectHandle node, int depth, std::set<int>& seen, std::string& out) {
+        if (depth > 40 || !node.isDictionary()) return;
+        if (node.isIndirect() && !seen.insert(node.getObjectID()).second) return;
+        auto kids = node.getKey("/Kids");
+        if (!kids.isArray()) return;
+        int n = kids.getArrayNItems();
+        for (int i = 0; i < n; ++i) {
+            auto kid = kids.getArrayItem(i);
+            if (kid.isDictionary() && kid.hasKey("/Kids")) { walkvals(kid, depth + 1, seen, out); continue; }
+            if (!kid.isDictionary()) continue;
+            auto c = kid.shallowCopy();
+            c.removeKey("/Parent");
+            out += (kid.isIndirect() ? std::to_string(kid.getObjectID()) : std::string("d")) + "^" + std::to_string(fnv(c.unparse())) + ",";
+        }
+    }
+    std::string leafvals(QPDF& q) {
+        std::string out;
+        try { std::set<int> seen; walkvals(q.getTrailer().getKey("/Root").getKey("/Pages"), 0, seen, out); }
+        catch (std::exception const& e) { out += "!"; }
+        return out;
+    }
+
     std::string tree(QPDF& q) {
         std::string out;
         try {
@@ -210,7 +234,7 @@ namespace {
         auto fix = [&](size_t docf, size_t idf) { if (f.size() > idf && f.size() > docf) f[idf] = resolve(D, std::stoi(f[docf]), f[idf]); };
         if (op == "ap" || op == "hp" || op == "rm" || op == "hr" || op == "cf") fix(2, 3);
         else if (op == "aa" || op == "ha") { fix(2, 3); fix(5, 6); }
-        else if (op == "sc" || op == "fp" || op == "rp" || op == "rr") fix(1, 2);
+        else if (op == "sc" || op == "fp" || op == "rp" || op == "rr" || op == "mb" || op == "rk" || op == "na") fix(1, 2);
         else if (op == "ri") { fix(1, 2); fix(3, 4); }
         else if (op == "sw") { fix(1, 2); fix(1, 3); }
         return f;
@@ -258,6 +282,38 @@ namespace {
         if (op == "pi") { q.pushInheritedAttributesToPage(); return "ok"; }
         if (op == "gp") { (void)q.getAllPages(); return "ok:" + pagelist(q); }
         if (op == "fp") { return "ok:" + std::to_string(q.findPage(QPDFObjGen(I(2), 0))); }
+        // ---- in-place edits through handles (only when the container has the right type and the index is in range)
+        if (op == "mb" || op == "rk" || op == "na") {
+            auto pg = handle(D, d, I(2));
+            if (!pg.isDictionary()) return "ok:skip";
+            if (op == "mb") {       // mb,d,i,k,z : page.getKey("/MediaBox").setArrayItem(k, z)
+                auto a = pg.getKey("/MediaBox");
+                if (!a.isArray() || I(3) < 0 || I(3) >= a.getArrayNItems()) return "ok:skip";
+                a.setArrayItem(I(3), QPDFObjectHandle::newInteger(I(4))); return a.isIndirect() ? "ok:" + std::to_string(a.getObjectID()) : std::string("ok");
+            }
+            if (op == "rk") {       // rk,d,i,k,z : page.getKey("/Resources").replaceKey("/X<k>", z)
+                auto r = pg.getKey("/Resources");
+                if (!r.isDictionary()) return "ok:skip";
+                r.replaceKey("/X" + f.at(3), QPDFObjectHandle::newInteger(I(4))); return r.isIndirect() ? "ok:" + std::to_string(r.getObjectID()) : std::string("ok");
+            }
+            auto a = pg.getKey("/Annots");   // na,d,i,z : page.getKey("/Annots").appendItem(z)
+            if (!a.isArray()) return "ok:skip";
+            a.appendItem(QPDFObjectHandle::newInteger(I(3))); return a.isIndirect() ? "ok:" + std::to_string(a.getObjectID()) : std::string("ok");
+        }
+        if (op == "kn" || op == "ks") {   // direct edits of the root /Kids array: kn,d,a (entry := null)  ks,d,a,b (exchange)
+            auto pages = q.getTrailer().getKey("/Root").getKey("/Pages");
+            if (!pages.isIndirect() || !pages.isDictionary()) return "ok:skip";
+            auto kids = pages.getKey("/Kids");
+            if (kids.isIndirect() || !kids.isArray()) return "ok:skip";
+            int n = kids.getArrayNItems();
+            if (op == "kn") {
+                if (I(2) < 0 || I(2) >= n) return "ok:skip";
+                kids.setArrayItem(I(2), QPDFObjectHandle::newNull()); return "ok";
+            }
+            if (I(2) < 0 || I(2) >= n || I(3) < 0 || I(3) >= n) return "ok:skip";
+            auto x = kids.getArrayItem(I(2)); auto y = kids.getArrayItem(I(3));
+            kids.setArrayItem(I(2), y); kids.setArrayItem(I(3), x); return "ok";
+        }
         if (op == "mi") {   // makeIndirectObject of a parsed direct object
             auto r = q.makeIndirectObject(QPDFObjectHandle::parse(&q, unhex(f.at(2)))); return "ok:" + std::to_string(r.getObjectID());
         }
@@ -315,6 +371,7 @@ static Reg r_pgrun("pgrun", [](std::vector<std::string> const& a) -> std::string
         if (obs >= 2) out += " f=" + findall(*D.q[0]) + "/" + findall(*D.q[1]);
         out += " t=" + tree(*D.q[0]) + "/" + tree(*D.q[1]);
         out += " k=" + markers(*D.q[0]) + "/" + markers(*D.q[1]);
+        out += " q=" + leafvals(*D.q[0]) + "/" + leafvals(*D.q[1]);
         dump_problems.clear();
         if (verbose) out += " d=" + hex(dump(*D.q[0])) + "/" + hex(dump(*D.q[1]));
         else out += " h=" + std::to_string(fnv(dump(*D.q[0]))) + "/" + std::to_string(fnv(dump(*D.q[1])));
